@@ -17,7 +17,6 @@ import (
 	"fmt"
 	"os"
 	"runtime/pprof"
-	"sort"
 	"strings"
 	"sync"
 	"sync/atomic"
@@ -455,9 +454,13 @@ func runCheck(r *core.Run) {
 	r.Add("whitebox_walks", x.walks.Load())
 	r.Add("symtab_copies_live_order_not_snapshot_order", x.lns.Load())
 	r.Set("extended_configurations_cut_by_budget_share", extCut)
-	// exhaustive = every configuration of the tier's base list was completed to closure resp. to its depth
-	// bound; the thorough tier's "+ext" configurations are open-ended (deepest completed level is reported)
-	r.Exhaustive(allDone)
+	// exhaustive = every configuration of the tier was completed to closure resp. to its depth bound.
+	// The thorough tier's "+ext" configurations (all iterator kinds x 3 live iterators x nested forEach) are
+	// open-ended: each gets an equal share of the remaining budget and reports its deepest completed level.
+	r.Exhaustive(allDone && extCut == 0)
+	if allDone && extCut > 0 {
+		r.Explain(fmt.Sprintf("every base configuration was completed (closures / depth bounds, see bounds_completed); %d open-ended \"+ext\" configurations were explored breadth-first to the depth their budget share allowed", extCut))
+	}
 }
 
 func reprOf(e *env, i int) string {
@@ -508,13 +511,4 @@ func replayCase(r *core.Run, raw json.RawMessage) {
 	if rn.fail != nil {
 		r.Violation(rn.fail.sig, rn.fail.what, c)
 	}
-}
-
-func sortedKeys(m map[string]string) []string {
-	ks := make([]string, 0, len(m))
-	for k := range m {
-		ks = append(ks, k)
-	}
-	sort.Strings(ks)
-	return ks
 }
